@@ -1,7 +1,7 @@
 package dtls
 
 //symgo:pkg github.com/pion/dtls/v3
-//symgo:param NDGRAM quick=20 thorough=30
+//symgo:param NDGRAM quick=20 thorough=26
 //symgo:param NJUNK quick=16 thorough=24
 //symgo:stub crypto/rand.Reader is a fake returning fresh symbolic bytes; nextConn is a fake that accepts every write
 //symgo:stub CipherSuite / RecordProtection13 are harness fakes returning an arbitrary verdict and (for an authenticated peer) the record bytes as plaintext, so malformed-but-authentic content reaches the content parsers
